@@ -444,12 +444,15 @@ func Gen(tier string, emit func(Case)) {
 		// the same with an empty line before and after every comment that sits on a line of its own
 		var allBlank []gen.Deco
 		for n, s := range slots {
-			cm := gen.Deco{Index: s.idx, Text: commentText(n%3, n+1), Role: s.slot.Role}
 			if s.slot.Role == "leading" {
+				cm := gen.Deco{Index: s.idx, Text: commentText(n%3, n+1), Role: s.slot.Role}
 				bl := gen.Deco{Index: s.idx, Text: "\n\n", Role: "raw"}
 				allBlank = append(allBlank, bl, cm, bl)
+			} else if s.slot.Role == "trailing" {
+				allBlank = append(allBlank, gen.Deco{Index: s.idx, Text: commentText(n%3, n+1), Role: s.slot.Role})
 			} else {
-				allBlank = append(allBlank, cm)
+				// block comments at the inline placeholders: a line comment there is root cause B and ends the comparison early
+				allBlank = append(allBlank, gen.Deco{Index: s.idx, Text: commentText(2, n+1), Role: s.slot.Role})
 			}
 		}
 		emitDeco(allBlank, "all-slots-blank:"+kind)
